@@ -5,6 +5,11 @@ Write /verif/seeded/<ID>/meta.json from the logs of tools/try_mutant.sh runs (se
 import json, os, re, sys
 
 HERE = os.path.dirname(os.path.dirname(os.path.abspath(__file__)))
+sys.path.insert(0, os.path.join(HERE, "tools"))
+try:
+    from seeded_table import SUMMARY
+except Exception:
+    SUMMARY = {}
 results = {}
 for log in sys.argv[1:]:
     cur = None
@@ -54,6 +59,7 @@ for sid, r in results.items():
         "id": sid,
         "breaks_property": pid,
         "property_title": props.get(pid, {}).get("title", ""),
+        "what_the_change_does": SUMMARY.get(sid, ""),
         "origin": "written by an independent sub-agent that saw only the property text and a scratch worktree of /repo (nothing from /verif)",
         "files": {"patch": "patch.diff", "demonstration": [f for f in os.listdir(d) if f.startswith("demo_")], "author_notes": "NOTES.md"},
         "needs_to_manifest": needs,
